@@ -18,8 +18,9 @@
     netip.ParseAddr / ParsePrefix / net.ParseMAC / ValidateClientID +
     strings.ToLower make of the string; [PBad]: setID returns an error);
     printing them back ([Addr.String] ...) and parsing again is the identity on
-    these values (trusted, validated by the harness) EXCEPT for 8-byte MACs
-    ([mac_as_written]).  Time zones are numbers;
+    these values (trusted, validated by the harness; since /repo 5c9e5b4 also
+    for 8-byte MACs, which [macString] writes with hyphens because their colon
+    form is IPv6 text).  Time zones are numbers;
     0 is time.Local (what schedule.EmptyWeekly carries). *)
 From Coq Require Import ZArith.
 From AGH Require Import Base.Run Base.Bytes.
@@ -34,7 +35,16 @@ Record ssconf := {
 }.
 
 (** The fields of client.Persistent outside ClientIndex's [client]. *)
-Record extra := { x_ss : ssconf; x_cache_enabled : bool; x_cache_size : N }.
+Record extra := {
+  x_ss : ssconf; x_cache_enabled : bool; x_cache_size : N;
+  (* BlockedServices.Schedule is a nil pointer ([c_blocked] then carries the
+     empty schedule as a placeholder; see [query_panics]) *)
+  x_nil_sched : bool
+}.
+
+(** The [blocked_services] section of the file: the [schedule] key may be
+    absent or null (a nil *schedule.Weekly after decoding). *)
+Record fblocked := { fb_ids : list bytes; fb_sched : option (Schedule.weekly * N) }.
 
 Inductive pid :=
   | PIp (a : addr) | PNet (p : prefix) | PMac (m : bytes) | PCid (c : bytes)
@@ -42,7 +52,8 @@ Inductive pid :=
 
 (** clientObject.  Optional keys: an absent boolean / number / list key is the
     Go zero value ([false], 0, nil = []); [o_uid = 0]: key absent or the zero
-    UUID; [o_blocked = None]: [blocked_services] absent or null; an absent
+    UUID; [o_blocked = None]: [blocked_services] absent or null; [fb_sched =
+    None]: the section has no (or a null) [schedule] key; an absent
     [safe_search] section is the all-false [ssconf]. *)
 Record cobj := {
   o_name : bytes;
@@ -51,7 +62,7 @@ Record cobj := {
   o_upstreams : list bytes;
   o_uid : uid;
   o_ss : ssconf;
-  o_blocked : option blocked;
+  o_blocked : option fblocked;
   o_cache_size : N;
   o_cache_enabled : bool;
   o_use_global_settings : bool;
@@ -88,20 +99,29 @@ Definition macs_of (l : list pid) : list bytes := flat_map (fun p => match p wit
 Definition cids_of (l : list pid) : list bytes := flat_map (fun p => match p with PCid a => [a] | _ => [] end) l.
 
 (** Persistent.IDs: addresses, subnets, MACs, ClientIDs, as the READER of the
-    file parses the strings written.  [net.HardwareAddr.String] of an 8-byte
-    address is eight colon-separated groups of two hexadecimal digits, which
-    setID reads with netip.ParseAddr FIRST: as the IPv6 address whose 16-bit
-    groups are the bytes.  (6- and 20-byte addresses are not valid IPv6 text.)
-    The code as it is; see [roundtrip_refuted_mac8] in Proofs/ClientConfig.v. *)
-Definition mac_as_written (m : bytes) : pid :=
-  if Nat.eqb (length m) 8 then PIp (flat_map (fun b => [0; b]) m, []) else PMac m.
-
+    file parses the strings written.  (Before /repo 5c9e5b4 an 8-byte MAC was
+    written in its colon form, which setID reads as an IPv6 address; macString
+    now writes those with hyphens, which only net.ParseMAC accepts.) *)
 Definition ids_of (c : client) : list pid :=
-  map PIp (c_ips c) ++ map PNet (c_subnets c) ++ map mac_as_written (c_macs c) ++ map PCid (c_cids c).
+  map PIp (c_ips c) ++ map PNet (c_subnets c) ++ map PMac (c_macs c) ++ map PCid (c_cids c).
 
 (** schedule.EmptyWeekly: seven zero ranges in time.Local. *)
 Definition empty_weekly : Schedule.weekly := repeat Schedule.zero_range 7.
 Definition default_blocked : blocked := {| b_ids := []; b_sched := empty_weekly; b_zone := 0 |}.
+
+(** The section as stored: a nil schedule is kept nil ([x_nil_sched]); the
+    record then carries the empty schedule as a placeholder. *)
+Definition blocked_of (fb : fblocked) : blocked :=
+  match fb_sched fb with
+  | Some (w, z) => {| b_ids := fb_ids fb; b_sched := w; b_zone := z |}
+  | None => {| b_ids := fb_ids fb; b_sched := empty_weekly; b_zone := 0 |}
+  end.
+Definition nil_sched_of (o : option fblocked) : bool :=
+  match o with Some fb => match fb_sched fb with None => true | Some _ => false end | None => false end.
+Definition stored_blocked (o : option fblocked) : blocked :=
+  match o with Some fb => blocked_of fb | None => default_blocked end.
+Definition written_blocked (b : blocked) (nil_sched : bool) : fblocked :=
+  {| fb_ids := b_ids b; fb_sched := if nil_sched then None else Some (b_sched b, b_zone b) |}.
 
 (** * toPersistent *)
 Inductive conv_err := CErrIds | CErrService.
@@ -112,7 +132,7 @@ Inductive conv := CErr (e : conv_err) | COk (c : client) (x : extra).
     the object carries no uid. *)
 Definition to_persistent (known : list bytes) (gen : uid) (o : cobj) : conv :=
   if existsb is_bad (o_ids o) then CErr CErrIds else
-  let b := match o_blocked o with Some b => b | None => default_blocked end in
+  let b := stored_blocked (o_blocked o) in
   if negb (forallb (fun i => existsb (eqb_bytes i) known) (b_ids b)) then CErr CErrService else
   COk {| c_uid := if o_uid o =? 0 then gen else o_uid o;
          c_name := o_name o;
@@ -131,7 +151,8 @@ Definition to_persistent (known : list bytes) (gen : uid) (o : cobj) : conv :=
          c_ignore_stats := o_ignore_stats o;
          c_tags := o_tags o;
          c_upstreams := o_upstreams o |}
-      {| x_ss := o_ss o; x_cache_enabled := o_cache_enabled o; x_cache_size := o_cache_size o |}.
+      {| x_ss := o_ss o; x_cache_enabled := o_cache_enabled o; x_cache_size := o_cache_size o;
+         x_nil_sched := nil_sched_of (o_blocked o) |}.
 
 (** * One object of forConfig *)
 Definition for_config (c : client) (x : extra) : cobj :=
@@ -141,7 +162,7 @@ Definition for_config (c : client) (x : extra) : cobj :=
      o_upstreams := c_upstreams c;
      o_uid := c_uid c;
      o_ss := x_ss x;
-     o_blocked := c_blocked c;
+     o_blocked := option_map (fun b => written_blocked b (x_nil_sched x)) (c_blocked c);
      o_cache_size := x_cache_size x;
      o_cache_enabled := x_cache_enabled x;
      o_use_global_settings := negb (c_own_settings c);
@@ -209,7 +230,8 @@ Definition clients_by_name (ix : index) : list client :=
 Definition zero_ss : ssconf :=
   {| ss_enabled := false; ss_bing := false; ss_ddg := false; ss_ecosia := false;
      ss_google := false; ss_pixabay := false; ss_yandex := false; ss_youtube := false |}.
-Definition zero_extra : extra := {| x_ss := zero_ss; x_cache_enabled := false; x_cache_size := 0 |}.
+Definition zero_extra : extra :=
+  {| x_ss := zero_ss; x_cache_enabled := false; x_cache_size := 0; x_nil_sched := false |}.
 
 Definition extra_of (r : registry) (u : uid) : extra :=
   match ext_get u (snd r) with Some x => x | None => zero_extra end.
@@ -221,3 +243,19 @@ Definition save (r : registry) : list cobj :=
     one ([g], any value) is not used. *)
 Definition reload (cfg : config) (known : list bytes) (g : uid) (r : registry) : lres :=
   load cfg known (map (fun o => (g, o)) (save r)).
+
+(** * OBSERVATION (not a clause of C04): a section without a schedule
+
+    DNSFilter.ApplyAdditionalFiltering evaluates
+    [setts.BlockedServices.Schedule.Contains(now)] whenever the chosen client
+    applies its own blocked services; with a nil schedule that is a nil
+    pointer dereference: the request PANICS.  Explicit outcome of the model. *)
+Definition query_panics (r : registry) (dhcp : addr -> option bytes) (id : bytes) (a : addr) : bool :=
+  match acf_find (fst r) dhcp id a with
+  | None => false
+  | Some u =>
+      match deref (fst r) u with
+      | Some c => c_own_blocked c && x_nil_sched (extra_of r u)
+      | None => false
+      end
+  end.
